@@ -13,6 +13,10 @@
    [fsh] = false: the tree before the repair (a further ANNOUNCE / DESCRIBE overwrites the field);
    true: a connection that already carries a publish or play session answers a further ANNOUNCE /
    DESCRIBE with an error, i.e. the connection ends and its session is reported as departed.
+   An RTMP connection is one session (rtmp.ServerSession) that may publish or play once: a further
+   publish / play command on it ([CRtmpCmd], pkg/rtmp/server_session.go doPublish / doPlay) is refused
+   before anything of it is recorded, the connection ends and the session departs from ITS stream -
+   whatever stream the refused command names.
    No proofs in this file. *)
 From Coq Require Import NArith ZArith List Bool.
 From Lal Require Import Group.GroupAdmission.
@@ -32,7 +36,8 @@ Definition init_cstate : cstate := mk_cstate init_state [].
 Inductive cevent :=
 | CE (e : event)                              (* an event of GroupAdmission *)
 | CAnnounce (s c n : N) (deny : bool)         (* ANNOUNCE for stream s on the connection of session c: new PubSession n *)
-| CDescribe (s c n : N) (deny : bool).        (* DESCRIBE for stream s on the connection of session c: new SubSession n *)
+| CDescribe (s c n : N) (deny : bool)         (* DESCRIBE for stream s on the connection of session c: new SubSession n *)
+| CRtmpCmd (s n : N) (pub : bool).            (* a further publish / play command naming stream s on the connection of RTMP session n *)
 
 Definition memb (n : N) (c : conn) : bool := existsb (N.eqb n) (cn_members c).
 
@@ -167,6 +172,17 @@ Definition cstep (fsh : bool) (fx : fixes) (cf : config) (cs : cstate) (ce : cev
             let '(st2, ns2) := close_conn fx cf st1 k1 in
             (mk_cstate st2 (set_conn c k1 conns), RRef, ns ++ ns2)
       end
+  | CRtmpCmd _ n _ =>
+    match find_sess n (st_sess st) with
+    | Some x =>
+      match s_kind x with
+      | KRtmpPub | KRtmpSub =>
+        if negb (s_acc x) || s_gone x || s_closed x then (cs, RBad, [])
+        else let '(st1, _, ns) := step fx cf st (EGone n) in (mk_cstate st1 conns, RRef, ns)
+      | _ => (cs, RBad, [])
+      end
+    | None => (cs, RBad, [])
+    end
   end.
 
 Fixpoint crun (fsh : bool) (fx : fixes) (cf : config) (cs : cstate) (h : list cevent) : cstate * list notif :=
